@@ -149,6 +149,10 @@ def RState.addOpt (s : RState) (o : EOpt) (pad optSize tsigSize : Nat) : Step :=
     { s with wasPadded := true }.addRRset ConstsC03.secADDITIONAL (optRRset o')
   else s.addRRset ConstsC03.secADDITIONAL (optRRset o)
 
+/-- `add_edns(edns, ednsflags, payload, options)`: the version octet of the flags is replaced by `edns` -/
+def RState.addEdns (s : RState) (edns ednsflags payload : Nat) (options : List (Nat × Bytes)) : Step :=
+  s.addOpt { ttl := (ednsflags &&& 0xFF00FFFF) ||| (edns <<< 16), payload := payload, options := options } 0 0 0
+
 /-- `Renderer._write_tsig` — the route of `add_tsig` / `add_multi_tsig`, the MAC being given: the owner name is written
 without the compression table (and leaves it alone) iff padding was applied, because the `tsig_size` the padding was
 computed from assumes an uncompressed owner; ARCOUNT is patched in place -/
